@@ -134,3 +134,94 @@ Proof.
   cbv zeta. split; [vm_compute; reflexivity|]. split; [vm_compute; reflexivity|]. split; [vm_compute; reflexivity|].
   intros e H. vm_compute in H. repeat (destruct H as [H|H]; [inversion H; reflexivity|]). destruct H.
 Qed.
+
+(** ** empty() as an operation of the specification: hindsight insertion of its linearization points.
+
+    [VQE cap] (LV.Proofs.VyukovEmptyLin): the bounded FIFO [VQ cap] with the read-only operation [EEmpty], answer
+    [RBool (queue = [])].  [histE capn tr] (LV.Proofs.VyukovEmptyLinHist): the history of Properties_C07 plus the
+    inv_empty / ret_empty [b] events as invocations / responses of [EEmpty].
+
+    What is established
+      C07_empty_insert_observers   abstract, for every LP-annotated trace [u] over [VQE cap] in which the empty()
+                               calls carry no linearization point ([prun]: the response to a pending [EEmpty] is
+                               accepted unchecked): if every such response is justified by an instant inside its call
+                               at which the abstract queue is empty iff the answer is true ([observed]), then
+                               linearization points can be inserted (retroactively, possibly in the middle of another
+                               thread's operation) so that the trace is [lp_valid]; hence [erase u] is linearizable.
+      C07_empty_linearizable_from_merged   for every schedule: [linearizable (VQE 2^k) (histE 2^k (trace c))] follows
+                               from C07_empty_observer (used in the proof) PROVIDED the trace has a merged annotated
+                               trace ([merged_trace_statement]): an interleaving [m] of the trace with the linearization
+                               points of enqueue / dequeue / front / pop_front that replays and at every instant [tra]
+                               of which the abstract queue has length [alen tra].
+      C07_empty_linearizable_witness   the history of the helping witness of C07_empty_false_at_return_refuted
+                               (empty() answers false, queue empty at the return) IS linearizable w.r.t. [VQE 2].
+    What is open: [merged_trace_statement].  C07_alen_is_abstract_length gives, for each reachable configuration
+    separately, SOME annotated trace whose abstract queue has length [alen]; the annotated traces of the configurations
+    along one execution are prefixes of each other by construction (VyukovLin only appends), but the proof rule
+    [Conc.safe] quantifies the auxiliary state existentially per configuration and the parameter [Ext] of
+    LV.Proofs.VyukovCore sees neither the shared state nor [alen] ([Ext_acc] is generic in the access), so this
+    coherence cannot be stated inside the existing instance.  It needs [Ext_acc] of VyukovCore restricted to accesses
+    for which |abstract queue| = alen (trace) is re-established (the fact [ri_len] + [alen_now] known at that point). *)
+From LV Require Import Proofs.LinProofs Proofs.VyukovEmptyLin Proofs.VyukovEmptyLinHist.
+
+Theorem C07_empty_insert_observers :
+  forall (cap : nat) (u : list (aev (VQE cap))) c,
+    prun cap lp_init u = Some c -> observed cap u ->
+    (exists u', lp_valid (VQE cap) u' /\ erase u' = erase u) /\ linearizable (VQE cap) (erase u).
+Proof.
+  intros cap u c R H. split; [exact (insert_observers cap u c R H)|exact (observed_linearizable cap u c R H)].
+Qed.
+Print Assumptions C07_empty_insert_observers.
+
+(** non-vacuity (helping): T0 calls empty(); T1 enqueues 5 and returns; T2's dequeue is linearized; T0's empty()
+    returns false.  The trace replays with [prun], is [observed] (instant: after T1's linearization point), and is
+    NOT valid as it stands (no linearization point for empty()) *)
+Definition C07_ex_u : list (aev (VQE 2)) :=
+  [@AInv (VQE 2) 0 EEmpty; @AInv (VQE 2) 1 (EV (VEnq 5)); @ALin (VQE 2) 1; @ARes (VQE 2) 1 (RBool true);
+   @AInv (VQE 2) 2 (EV VDeq); @ALin (VQE 2) 2; @ARes (VQE 2) 0 (RBool false)].
+
+Example C07_empty_insert_observers_nonvacuous :
+  (exists c, prun 2 lp_init C07_ex_u = Some c) /\ observed 2 C07_ex_u /\ ~ lp_valid (VQE 2) C07_ex_u.
+Proof.
+  split; [eexists; vm_compute; reflexivity|]. split.
+  - intros u1 t r u2 c1 E R P. unfold C07_ex_u in E.
+    do 3 (destruct u1 as [|? u1]; cbn [app] in E; [discriminate E|injection E as ? E; subst]).
+    destruct u1 as [|? u1]; cbn [app] in E.
+    { injection E as ? ? ?; subst. vm_compute in R. inversion R; subst c1. vm_compute in P. discriminate P. }
+    injection E as ? E; subst.
+    do 2 (destruct u1 as [|? u1]; cbn [app] in E; [discriminate E|injection E as ? E; subst]).
+    destruct u1 as [|? u1]; cbn [app] in E.
+    { injection E as ? ? ?; subst.
+      exists [@AInv (VQE 2) 0 EEmpty; @AInv (VQE 2) 1 (EV (VEnq 5)); @ALin (VQE 2) 1],
+             [@ARes (VQE 2) 1 (RBool true); @AInv (VQE 2) 2 (EV VDeq); @ALin (VQE 2) 2].
+      eexists. split; [reflexivity|]. split; [|split; [vm_compute; reflexivity|reflexivity]].
+      intros e He. cbn in He. repeat (destruct He as [<-|He]; [cbn; try exact I; discriminate|]). destruct He. }
+    injection E as ? E; subst. destruct u1; discriminate E.
+  - intros (c & H). vm_compute in H. discriminate H.
+Qed.
+
+(** every schedule, conditional on the merged annotated trace; C07_empty_observer is used inside *)
+Theorem C07_empty_linearizable_from_merged :
+  (forall (k : nat) (q : qcfg) (fuel : nat) (ths : list (list op)) (sc : option nat) (mp : bool) c,
+     (1 <= k)%nat -> qcap q = 2 ^ Z.of_nat k -> programs_allowed sc mp ths ->
+     Conc.reach (init_cfg q fuel ths) c -> claims_bound k (Conc.trace c) ->
+     exists m, tr_of m = Conc.trace c /\ merged_ok (2 ^ k) m) ->
+  forall (k : nat) (q : qcfg) (fuel : nat) (ths : list (list op)) (sc : option nat) (mp : bool) c,
+    (1 <= k)%nat -> qcap q = 2 ^ Z.of_nat k -> programs_allowed sc mp ths ->
+    Conc.reach (init_cfg q fuel ths) c -> claims_bound k (Conc.trace c) ->
+    linearizable (VQE (2 ^ k)) (histE (2 ^ k) (Conc.trace c)).
+Proof. exact empty_linearizable_from_merged. Qed.
+Print Assumptions C07_empty_linearizable_from_merged.
+
+(** per trace: a merged annotated trace + the conclusion of C07_empty_observer give linearizability *)
+Theorem C07_merged_linearizable :
+  forall (capn : nat) (m : list mit),
+    merged_ok capn m -> observer_holds (tr_of m) -> linearizable (VQE capn) (histE capn (tr_of m)).
+Proof. exact merged_linearizable. Qed.
+Print Assumptions C07_merged_linearizable.
+
+(** the helping witness (empty() = false with an empty queue at the return) is linearizable with empty() literally *)
+Example C07_empty_linearizable_witness :
+  linearizable (VQE 2) (histE 2 (Conc.trace wit_empty_cfg)) /\
+  In (@HRes (VQE 2) 0 (RBool false)) (histE 2 (Conc.trace wit_empty_cfg)).
+Proof. split; [apply lincheck_sound; vm_compute; reflexivity|vm_compute; tauto]. Qed.
